@@ -32,6 +32,20 @@ func parse(msg tss.Message) tss.ParsedMessage {
 	return pm
 }
 
+// ParseAs sends msg through the wire path but hands it over on the given channel kind
+// (isBroadcast as the transport claims it), which may differ from the kind it was sent on
+func ParseAs(msg tss.Message, isBroadcast bool) tss.ParsedMessage {
+	bz, _, err := msg.WireBytes()
+	if err != nil {
+		panic("WireBytes failed")
+	}
+	pm, err := tss.ParseWireMessage(bz, msg.GetFrom(), isBroadcast)
+	if err != nil {
+		panic("ParseWireMessage failed")
+	}
+	return pm
+}
+
 func Pump(parties []tss.Party, out chan tss.Message, hook Hook) []UpdateErr {
 	var errs []UpdateErr
 	for {
